@@ -109,7 +109,7 @@ theorem sv1Comps_sel (w h n : Nat) (data : Bytes) (acc : List (Nat × Nat)) (al 
     | [_] => simp [sv1Comps] at h
     | [_, _] => simp [sv1Comps] at h
 
-theorem sv1SOF3_sel (st st' : Sv1) (data : Bytes) (al : List Nat) (h : sv1SOF3 st data = (some st', al)) :
+theorem sv1SOF3_sel (st st' : Sv1) (data : Bytes) (al : List Nat) (h : sv1SOF3 st data = ((true, st'), al)) :
     Sel4 st'.comps := by
   unfold sv1SOF3 at h
   try simp only at h
